@@ -17,12 +17,19 @@ import (
 // `.name` / `['name']` / `["name"]`, `.*` / `[*]` (after `..` too), and the leading `$`
 // omitted before a name or bracket. 35% of the cases draw keys from gen.go's BlankKeys, so that the
 // dot spelling needs a backslash at the first / last character (`.k\ `, also at the very end of the
-// path and after `..`). Every spelling is parsed and run on the same document:
+// path and after `..`). One case in five draws 30% of its keys with a Unicode space-like / format character
+// (U+3000, U+00A0, U+0085, U+1680, U+2000..U+200B, U+2028, U+2029, U+202F, U+205F, U+FEFF, U+180E) at the start,
+// at the end or inside (GenOpts.SpaceKeys): ordinary name characters in dot notation, also as the very first
+// character of a path whose `$` is omitted. Every spelling is parsed and run on the same document:
 //   - all must return the same values, or errors of the same type (and expected/found types)
 //     that name the same step (the error's text is mapped back to the step index of that
 //     spelling),
 //   - the dumps of the parsed trees must be equal once the recorded texts are blanked,
 //   - the abstract path is put to jpv-spec once.
+//
+// One case in 25 (c18JointCase, b10_helpers.go): a quoted name with a RAW control character and neither a
+// backslash nor a quote, written with single and with double quotes in up to nine positions: the two spellings
+// must give the same values or errors of the same type, whatever the library makes of such a name.
 
 type c18 struct{}
 
@@ -185,16 +192,43 @@ func c18Intersect(a, b []string) bool {
 	return false
 }
 
+// c18SpaceTags: which names of the path hold a space-like character, and where.
+func c18SpaceTags(p *Path, feats map[string]bool) {
+	for _, s := range p.Steps {
+		st := s
+		if st.Kind == StDesc {
+			st = st.Inner
+		}
+		switch st.Kind {
+		case StChild:
+			for _, t := range spaceKeyTags(st.Key) {
+				feats[t] = true
+			}
+		case StMulti:
+			for _, n := range st.Names {
+				for _, t := range spaceKeyTags(n.Key) {
+					feats[t] = true
+				}
+			}
+		}
+	}
+}
+
 var c18LeadZero = regexp.MustCompile(`[\[,:(=<> ][-+]?0[0-9]`)
 var c18Plus = regexp.MustCompile(`[\[,:(=<> ]\+[0-9]`)
 
 func (c18) Exec(seed int64, i int, tier string) Record {
 	r := CaseRng(seed, "C18", i)
+	if i%25 == 13 {
+		return c18JointCase(r)
+	}
 	o := DefaultOpts()
 	o.OddKeys = r.Chance(50)
 	o.ErrBias = 10
 	// names whose dot spelling needs a backslash at the first / last character (`.k\ `, `.\ `): 35% of the cases
 	o.BlankKeys = r.Chance(35)
+	// names with a Unicode space-like / format character (U+FEFF, U+3000, U+00A0 …) at their start, end or inside: one case in five
+	o.SpaceKeys = i%5 == 2
 	cfg := Config(false, nil)
 	var doc interface{}
 	var p *Path
@@ -232,6 +266,9 @@ func (c18) Exec(seed int64, i int, tier string) Record {
 				text = text[:at] + text[at+2:]
 				first.Text = first.Key
 				feats["spell:name… ($ omitted)"] = true
+				if at == 0 && len(spaceKeyTags(first.Key)) > 0 && spaceKeyTags(first.Key)[0] == "name:space-like-first" {
+					feats["spell:name… ($ omitted), the path begins with a space-like character of the name"] = true
+				}
 			case first.Kind == StWild && !first.Bracket:
 				text = text[:at] + text[at+2:]
 				first.Text = "*"
@@ -289,6 +326,9 @@ func (c18) Exec(seed int64, i int, tier string) Record {
 	b := sps[0]
 	rec := Record{Text: b.text, Doc: JSONText(doc), Info: map[string]interface{}{"spellings": texts}}
 	rec.Tags = stepTags(p)
+	if o.SpaceKeys {
+		c18SpaceTags(p, feats)
+	}
 	for f := range feats {
 		rec.Tags = append(rec.Tags, f)
 	}
